@@ -10,9 +10,9 @@ run_one() {
   p=$(python3 -c "import json;print(json.load(open('$d/meta.json'))['breaks_property'])")
   rm -rf $R $V; mkdir -p $R $V/evidence
   cp -r /tmp/sr/.base/. $R/ || return
-  ln -s /verif/spec $V/spec; cp /verif/KNOWN_FINDINGS.txt $V/
+  ln -s /tmp/sr/.spec $V/spec; cp /verif/KNOWN_FINDINGS.txt $V/
   (cd $R && git init -q . 2>/dev/null; patch -p1 -s < $d/patch.diff) || { echo "ERROR   seed $id: patch does not apply"; rm -rf $R $V; return; }
-  out=$(cd /verif && ./bin/cbv check -repo $R -verif $V -prop $p -tier quick 2>&1); rc=$?
+  out=$(cd /verif && /tmp/sr/.cbv check -repo $R -verif $V -prop $p -tier quick 2>&1); rc=$?
   n=$(echo "$out" | grep -c '^VIOLATION')
   obs=$(echo "$out" | grep '^VIOLATION' | sed 's/.*obligation="\([^"]*\)".*/\1/' | head -6 | tr '\n' ';')
   rm -rf $R $V
@@ -27,6 +27,8 @@ PY
 }
 export -f run_one
 # one snapshot of /repo's working tree, taken now: later edits of /repo do not leak into the run
-rm -rf /tmp/sr/.base; mkdir -p /tmp/sr/.base; (cd /repo && git ls-files -z | xargs -0 cp --parents -t /tmp/sr/.base)
+rm -rf /tmp/sr/.base /tmp/sr/.spec /tmp/sr/.cbv; mkdir -p /tmp/sr/.base; (cd /repo && git ls-files -z | xargs -0 cp --parents -t /tmp/sr/.base)
+# ... and of the specs and the engine binary, so that development can go on while the seeds run
+cp -r /verif/spec /tmp/sr/.spec; cp /verif/bin/cbv /tmp/sr/.cbv
 echo $ids | tr ' ' '\n' | xargs -P $J -I{} bash -c 'run_one {}'
-rm -rf /tmp/sr/.base
+rm -rf /tmp/sr/.base /tmp/sr/.spec /tmp/sr/.cbv
